@@ -89,7 +89,7 @@ Definition dyn_view (c : cls) (d : dyn_entry) : N * N :=
 Theorem dyn_raw_roundtrip c e s es j d :
   Inv s -> contents s = concat (map (dyn_enc c e) es) ->
   sh_entsize s = dyn_esz c -> sh_size s < 2 ^ 61 ->
-  nth_optN es j = Some d -> de_tag d < 2 ^ 31 ->
+  nth_optN es j = Some d -> de_tag d < 2 ^ (xw c - 1) ->
   dyn_raw_core c e s (s_data s) j = Ok (dyn_view c d).
 Proof.
   intros HI HC HE HB Hn Ht.
@@ -122,7 +122,8 @@ Proof.
   unfold dyn_enc. rewrite dec_enc_fields by (destruct c; reflexivity).
   assert (Tg : sext (xw c) (nthN (trunc_fields (dyn_layout c)
                  [wrap (xw c) (de_tag d); wrap (xw c) (if dyn_tag_no_value (de_tag d) then 0 else de_value d)]) 0 0) = de_tag d).
-  { destruct c; cbn [dyn_layout trunc_fields nthN N.eqb xw];
+  { destruct c; [assert (Ht' : de_tag d < 2 ^ 31) by exact Ht | assert (Ht' : de_tag d < 2 ^ 63) by exact Ht]; clear Ht; rename Ht' into Ht;
+      cbn [dyn_layout trunc_fields nthN N.eqb xw];
       [change (256 ^ N.of_nat 4) with (2 ^ 32) | change (256 ^ N.of_nat 8) with (2 ^ 64)];
       unfold wrap; rewrite N.mod_mod by (apply N.pow_nonzero; lia);
       (rewrite N.mod_small by (eapply N.lt_trans; [exact Ht|apply N.pow_lt_mono_r; lia]));
@@ -157,7 +158,7 @@ Qed.
 Theorem dyn_count_first_null c e s es fuel i :
   Inv s -> contents s = concat (map (dyn_enc c e) es) ->
   sh_entsize s = dyn_esz c -> sh_size s < 2 ^ 61 ->
-  Forall (fun d => de_tag d < 2 ^ 31) es ->
+  Forall (fun d => de_tag d < 2 ^ (xw c - 1)) es ->
   i <= lenN es -> lenN es - i < lenN fuel ->
   dyn_count_core fuel c e s (s_data s) i (lenN es) = Ok (i + first_null (skipnN es i)).
 Proof.
@@ -166,7 +167,7 @@ Proof.
   cbn [dyn_count_core].
   destruct (N.ltb_spec i (lenN es)) as [Hlt|Hge].
   - destruct (nth_optN_some es i Hlt) as [d En].
-    assert (Hd : de_tag d < 2 ^ 31).
+    assert (Hd : de_tag d < 2 ^ (xw c - 1)).
     { rewrite Forall_forall in Ht. apply Ht. rewrite nth_optN_nth_error in En. eapply nth_error_In; eauto. }
     rewrite (dyn_raw_roundtrip c e s es i d HI HC HE HB En Hd). unfold dyn_view. cbn [bind].
     rewrite (skipnN_nth _ _ _ En). cbn [first_null].
@@ -179,7 +180,7 @@ Qed.
 Corollary dyn_reported_count c e s es fuel :
   Inv s -> contents s = concat (map (dyn_enc c e) es) ->
   sh_entsize s = dyn_esz c -> sh_size s < 2 ^ 61 ->
-  Forall (fun d => de_tag d < 2 ^ 31) es -> lenN es < lenN fuel ->
+  Forall (fun d => de_tag d < 2 ^ (xw c - 1)) es -> lenN es < lenN fuel ->
   exists i, dyn_count_core fuel c e s (s_data s) 0 (lenN es) = Ok i /\
     N.min (lenN es) (i + 1) = N.min (lenN es) (first_null es + 1) /\
     N.min (lenN es) (i + 1) <= lenN es.
